@@ -466,6 +466,8 @@ func checkC04(res *Result) {
 	}
 	res.Rule("C04-R10", "'a verified Accept adds its actors to following': the verification is the one C06-R3 describes — stored Follow fetched from the Database, of type Follow, this actor among its actors, every accepting actor among its objects (a missing one fails) — and Following/Update happen only after it succeeded")
 	checkAcceptVerification(res, p, E, "C04-R10")
+	res.Rule("C04-R11", "the default callbacks see every embedded object / target / actor: GetType of those properties returns the value for each of their type-valued kinds (shared with C18-R4)")
+	checkTypeAccessorTables(res, "C04-R11", map[string]bool{"object": true, "target": true, "actor": true})
 	res.Rule("C04-R9", "the automatic Accept / Reject reaches every actor of the Follow: on the delivery path every addressed actor whose inbox the Database does not know is resolved remotely (shared with C02-R5)")
 	if fn := p.Func("sideEffectActor.prepare"); fn != nil {
 		ffp := computeFacts(fn)
